@@ -489,3 +489,29 @@ func VerifC08Preface() {
 	vf.Assert(bytes.Equal(server.Bytes(), connectionPreface), "preface-bytes-identical")
 	vf.Reach("done")
 }
+
+// VerifC08Split: the function that cuts an encoded header block into the
+// HEADERS / PUSH_PROMISE fragment and its CONTINUATION fragments, for symbolic
+// limits and a symbolic block: the fragments concatenate to the block, the first
+// respects its own (smaller) limit, every other the frame limit, and no
+// CONTINUATION is empty.
+func VerifC08Split() {
+	contMax := vf.Int("continuation-max")
+	firstMax := vf.Int("first-max")
+	vf.Assume(contMax >= 1 && contMax <= 4 && firstMax >= 0 && firstMax <= contMax)
+	n := vf.Choice("block-len", vf.Param("block")+1)
+	data := vf.Bytes("block", n)
+	chunks := splitIntoChunks(firstMax, contMax, data)
+	vf.Assert(len(chunks) >= 1, "at-least-the-first-fragment")
+	var all []byte
+	for i, c := range chunks {
+		if i == 0 {
+			vf.Assert(len(c) <= firstMax, "first-fragment-within-its-limit")
+		} else {
+			vf.Assert(len(c) <= contMax && len(c) > 0, "continuation-fragment-within-the-frame-limit-and-not-empty")
+		}
+		all = append(all, c...)
+	}
+	vf.Assert(bytes.Equal(all, data), "fragments-concatenate-to-the-header-block")
+	vf.Reach("done")
+}
